@@ -8,9 +8,9 @@
    parse_no_crash (Proofs/ParseDeclTotal.v) and the lexer fact C01_source_long_ok. *)
 From Coq Require Import List NArith ZArith.
 From Falco Require Gen.TokenTypes Model.ParseBase Model.Ast Model.ParseDecl Proofs.ParseExprTotal.
-From Falco Require Import Base.Res Base.Bytes Base.Utf8 Gen.Tokens Model.Lex Model.Pump Model.LexSpec Model.LexParse
+From Falco Require Import Base.Res Base.Bytes Base.Utf8 Gen.Tokens Gen.LexOps Model.Lex Model.LexOps Model.Pump Model.LexSpec Model.LexParse
   Proofs.LexTables Proofs.LexProgress Proofs.LexToken Proofs.PumpTotal Proofs.LexView Proofs.LexLocated Proofs.LexExtra
-  Proofs.LexOpen Proofs.LexParse Proofs.LexTheorems Proofs.LexExamples Proofs.LexParseExamples.
+  Proofs.LexOpen Proofs.LexOps Proofs.LexParse Proofs.LexTheorems Proofs.LexExamples Proofs.LexParseExamples.
 Import ListNotations.
 
 (* Totality: for EVERY byte string the token loop (NextToken until the first EOF), run with the
@@ -141,6 +141,20 @@ Theorem C01_char_classes_documented : forall r : rune,
   in_string r = ref_in_string r /\ is_ident_cont r = ref_ident_cont r.
 Proof. exact char_classes_documented. Qed.
 
+(* T tie: the `switch l.char` of NextToken, regenerated as a decision table (character, look-ahead
+   characters, token type, spelling), is the documented operator / punctuation table (special
+   actions - strings, comments, long strings, EOF - compared by position only) ... *)
+Theorem C01_operator_table_documented :
+  map (fun p => (fst p, erase (snd p))) op_table = ref_op_table.
+Proof. exact op_table_documented. Qed.
+
+(* ... and the model follows the regenerated table: on every entry free of special actions
+   (22 of 27), lex_char is the table interpreter. *)
+Theorem C01_lex_char_follows_table :
+  forall c tree, In (c, tree) op_table -> simple tree = true ->
+  forall n st, ch st = c -> lex_char n st = interp tree st (line st) (idx st).
+Proof. exact lex_char_follows_table. Qed.
+
 Theorem C01_token_types_distinct : nodup_b all_types = true /\ str_in [] all_types = false.
 Proof. exact types_distinct. Qed.
 
@@ -164,4 +178,6 @@ Print Assumptions C01_parse_eof_located.
 Print Assumptions C01_parse_error_located.
 Print Assumptions C01_keywords_documented.
 Print Assumptions C01_char_classes_documented.
+Print Assumptions C01_operator_table_documented.
+Print Assumptions C01_lex_char_follows_table.
 Print Assumptions C01_token_types_distinct.
